@@ -123,6 +123,11 @@ def requests(world):
     if in_play:
         burn_args.append(((cards_str(some(in_play, 1)),), 'in_play'))
     burn_args.append((('??',), 'unknown'))
+    # card text that is not a sequence of cards: refusals, never another exception
+    malformed = ['', 'A', 'AsK', 'Xx', 'asks', '2 c', '?', '2c3 c', 'As  K s']
+    bad = malformed[ch.pick('adv.malformed', len(malformed))]
+    burn_args.append(((bad,), 'malformed'))
+    twice = cards_str(one + one) if one else None
     for a, lab in burn_args:
         out.append(('burn_card', a, 'card:' + lab))
     # hole dealing: counts and cards x players
@@ -141,6 +146,9 @@ def requests(world):
             variants.append((cards_str(over), 'cards_over'))
         if in_play:
             variants.append((cards_str(some(in_play, 1)), 'in_play'))
+        variants.append((bad, 'malformed'))
+        if twice and k >= 2:
+            variants.append((twice, 'same_card_twice'))
         if pend and not pend[0] and Automation.HOLE_CARDS_SHOWING_OR_MUCKING not in st.automations:
             # scope bound: an unknown down card only where nothing has to read it - with automated showing the
             # cascade following the last deal would have to table the unknown card
@@ -161,6 +169,9 @@ def requests(world):
         variants.append((cards_str(over), 'cards_over'))
     if in_play:
         variants.append((cards_str(some(in_play, 1)), 'in_play'))
+    variants.append((bad, 'malformed'))
+    if twice and bc >= 2:
+        variants.append((twice, 'same_card_twice'))
     for v, lab in variants:
         out.append(('deal_board', () if v is None else (v,), lab))
     # discards
@@ -172,6 +183,7 @@ def requests(world):
         variants.append((cards_str(held), 'held_all'))
     if one:
         variants.append((cards_str(one), 'not_held'))
+    variants.append((bad, 'malformed'))
     for v, lab in variants:
         out.append(('stand_pat_or_discard', () if v == () else (v,), lab))
     # showing
@@ -181,7 +193,7 @@ def requests(world):
             j = st.showdown_index
         own = [c for c in st.hole_cards[j]] if j is not None else []
         known = [c for c in own if c]
-        variants = [(None, 'default'), (True, 'true'), (False, 'false')]
+        variants = [(None, 'default'), (True, 'true'), (False, 'false'), (bad, 'malformed')]
         if known and len(known) == len(own):
             variants.append((cards_str(known), 'own_all'))
             if len(known) > 1:
